@@ -163,6 +163,9 @@ func diffLabel(oldObj, newObj client.Object, kind, fallback string) string {
 			names = append(names, g.name)
 		}
 	}
+	if oldObj.GetDeletionTimestamp() == nil && newObj.GetDeletionTimestamp() != nil {
+		names = append(names, "terminating")
+	}
 	if len(names) == 0 {
 		if annotationsDiffer(oldObj, newObj) {
 			return "annotation"
